@@ -541,6 +541,9 @@ static void run_rfile(const std::string& rel, Stats& st) {
 }
 
 // ---------- one execution ----------
+// set in fork-per-execution mode: called as soon as the reader has accepted the synthesised block
+static std::function<void(const std::vector<Point>&)> g_after_get;
+
 static std::vector<Point> run_one(const std::string& type, const VerCfg& vc, const Script& s, Stats& st, bool replay = false) {
 	vf::set_inflight(case_json(type, vc, s).dump());
 	Tape tape;
@@ -563,6 +566,7 @@ static std::vector<Point> run_one(const std::string& type, const VerCfg& vc, con
 		st.add("rejected_by_exception");
 		return tape.points;
 	}
+	if (g_after_get) g_after_get(tape.points);
 	st.add("evaluations");
 	st.max("tape_bytes", (long long) tape.bytes.size());
 	st.max("choice_points", (long long) tape.points.size());
@@ -593,15 +597,23 @@ static std::vector<Point> run_one_isolated(const std::string& type, const VerCfg
 		g_unit_nontrivial.clear();
 		g_unit_outcomes.clear();
 		g_unit_file_outcomes.clear();
+		FILE* f = fdopen(fd[1], "w");
+		bool sent = false;
+		g_after_get = [&](const std::vector<Point>& pts) {
+			uint32_t n = (uint32_t) pts.size();
+			fwrite(&n, 4, 1, f);
+			if (n) fwrite(pts.data(), sizeof(Point), n, f);
+			fflush(f);
+			sent = true;
+		};
 		std::vector<Point> pts = run_one(type, vc, s, cs);
+		if (!sent) g_after_get(pts); // capped / rejected by exception: still report the points seen
 		cs.add("distinct_nontrivial", (long long) g_unit_nontrivial.size());
 		cs.add("distinct_outcomes", (long long) g_unit_outcomes.size());
 		cs.add("distinct_file_outcomes", (long long) g_unit_file_outcomes.size());
-		FILE* f = fdopen(fd[1], "w");
-		uint32_t n = (uint32_t) pts.size();
-		fwrite(&n, 4, 1, f);
-		if (n) fwrite(pts.data(), sizeof(Point), n, f);
+		fputc('\n', f); // end-of-points marker precedes the protocol lines
 		cs.flush(f);
+		fputs("END\n", f);
 		fclose(f);
 		_exit(0);
 	}
@@ -614,21 +626,37 @@ static std::vector<Point> run_one_isolated(const std::string& type, const VerCfg
 	int status = 0;
 	waitpid(pid, &status, 0);
 	std::vector<Point> pts;
-	bool ok = WIFEXITED(status) && WEXITSTATUS(status) == 0 && buf.size() >= 4;
-	if (ok) {
+	bool clean = WIFEXITED(status) && WEXITSTATUS(status) == 0;
+	bool got_points = false;
+	if (buf.size() >= 4) {
 		uint32_t n;
 		memcpy(&n, buf.data(), 4);
-		if (buf.size() < 4 + (size_t) n * sizeof(Point)) ok = false;
-		else {
+		size_t off = 4 + (size_t) n * sizeof(Point);
+		if (buf.size() >= off) {
+			got_points = true;
 			pts.resize(n);
 			if (n) memcpy(pts.data(), buf.data() + 4, (size_t) n * sizeof(Point));
-			st.raw.append(buf, 4 + (size_t) n * sizeof(Point), std::string::npos);
+			if (clean && buf.size() > off + 1) {
+				std::string text = buf.substr(off + 1);
+				if (text.size() >= 4 && text.compare(text.size() - 4, 4, "END\n") == 0) st.raw.append(text, 0, text.size() - 4);
+			}
 		}
 	}
-	if (!ok) {
+	if (!clean) {
 		vf::CrashInfo ci = vf::read_crash(A.rundir, pid, status, A.repo);
-		st.add("rejected_by_fault");
-		st.distinct("fault_sites", ci.key());
+		if (got_points) {
+			// the reader accepted the block; the fault happened while writing it back or re-reading the library's own output
+			st.add("faults_after_accept");
+			if (A.prop == "C01")
+				st.violation(type + ":" + game_of(vc) + ":fault-after-accept:" + ci.key(),
+							 vf::strf("%s (%s): the block was accepted, then writing it back or reloading the written file faulted: %s in %s", type.c_str(), vc.name,
+									  ci.cls.c_str(), ci.frame.c_str()),
+							 case_json(type, vc, s));
+		}
+		else {
+			st.add("rejected_by_fault");
+			st.distinct("fault_sites", ci.key());
+		}
 	}
 	st.add("isolated_executions");
 	return pts;
